@@ -502,7 +502,7 @@ def tasks(tier):
     t = []
     q = tier == "quick"
     # specifications
-    shapes = [((3,), 1), ((2,), 3), ((2, 3), 2), ((3, 1), 1), ((2, 1, 2), 3), ((1, 2, 2), 1), ((2, 2, 1, 2), 1)]
+    shapes = [((3,), 1), ((2,), 3), ((2, 3), 2), ((3, 1), 1), ((2, 1, 2), 3), ((1, 2, 2), 1), ((1, 2, 2, 2), 1)]
     if not q:
         shapes += [((4,), 2), ((1,), 1), ((3, 3), 3), ((4, 2), 4), ((2, 2, 2), 2), ((3, 2, 1), 4), ((2, 1, 2, 2), 1), ((1, 2, 1, 2), 3)]
     for i, (n, nv) in enumerate(shapes):
